@@ -1,16 +1,25 @@
 -------------------------------- MODULE MC_Par --------------------------------
-(* R1 for C14: the three decompositions for every length 2^3..2^MaxLog (and lengths around the threshold that are not powers
-   of two for batch_iter_mut) and every thread-pool size 1..64.                                            *)
+(* R1 for C14: the decompositions for every length 2^3..2^MaxLog (and lengths around the threshold that are not powers
+   of two for batch_iter_mut) and every thread-pool size 1..64; the transposition for every LDE height 2^4..2^MaxLog and
+   1..32 segments; the evaluation fragments for 2^10..2^15 rows and periodic tables of 2..2^13 rows.       *)
 EXTENDS Par, IOUtils
 MaxLog == atoi(IOEnv.PAR_MAXLOG)
-VARIABLES kind, len, threads
+VARIABLES kind, len, threads, aux
 Threads == IF IOEnv.PAR_THREADS = "all" THEN 1..64 ELSE {1, 2, 3, 4, 5, 7, 8, 9, 16, 17, 24, 32, 33, 63, 64}
 Init == /\ threads \in Threads
-        /\ \/ kind = "batch" /\ len \in {2 ^ k : k \in 3..MaxLog} \cup {1, 2, 3, 1023, 1025, 1500, 2049, 3000, 4097, 5000, 8193, 16385}
-           \/ kind = "permute" /\ len \in {2 ^ k : k \in 10..MaxLog}
-           \/ kind = "merkle" /\ len \in {2 ^ k : k \in 10..MaxLog}        \* len = number of leaf pairs (leaves / 2 >= 1024)
-Next == UNCHANGED <<kind, len, threads>>
+        /\ \/ kind = "batch" /\ len \in {2 ^ k : k \in 3..MaxLog} \cup {1, 2, 3, 1023, 1025, 1500, 2049, 3000, 4097, 5000, 8193, 16385} /\ aux = 0
+           \/ kind = "permute" /\ len \in {2 ^ k : k \in 10..MaxLog} /\ aux = 0
+           \/ kind = "merkle" /\ len \in {2 ^ k : k \in 10..MaxLog} /\ aux = 0        \* len = number of leaf pairs (leaves / 2 >= 1024)
+           \/ kind = "transpose" /\ len \in {2 ^ k : k \in 4..MaxLog} /\ aux \in 2..32   \* len = LDE rows, aux = segments (one segment is not transposed)
+           \/ kind = "fragments" /\ len \in {2 ^ k : k \in 10..14} /\ aux = 0                    \* len = evaluation rows
+           \/ kind = "periodic" /\ len \in {2 ^ k : k \in 10..18} /\ aux \in {2 ^ k : k \in 1..16}   \* aux = periodic table rows
+Next == UNCHANGED <<kind, len, threads, aux>>
 Inv == CASE kind = "batch" -> BatchOK(len, threads)
          [] kind = "permute" -> PermuteOK(len, threads)
          [] kind = "merkle" -> MerkleOK(len, threads)
+         [] kind = "transpose" -> TransposeOKArith(len, aux, threads) /\ (len <= 64 => TransposeOK(len, aux, threads))
+         [] kind = "fragments" -> FragmentsOK(len, threads)
+         [] kind = "periodic" -> PeriodicLookupOK(len, threads, aux, FALSE)
+\* refuted (non-vacuity): looking the periodic values up by the fragment-local row index
+InvLocalLookup == kind = "periodic" => PeriodicLookupOK(len, threads, aux, TRUE)
 =============================================================================
